@@ -193,20 +193,40 @@ def run(rep, tier, seed):
             rep.broken = getattr(rep, 'broken', []) + [
                 'correspondence C13/mk_key: model %r implementation %r for key %r' % (r, got, k)]
     # non-text keys are refused with ExpressionError
-    for k in (None, 0, 3.5, [], b'', object()):
-        rep.case(('nontext', repr(type(k))), nontrivial=False)
-        try:
-            le.LicenseSymbol(k)
-            rep.violations.append({'key': 'nontext', 'kind': 'key', 'text': repr(k), 'what': 'non-text key accepted'})
-        except le.ExpressionError:
-            pass
-        except Exception as e:   # noqa
-            rep.violations.append({'key': 'nontext', 'kind': 'key', 'text': repr(k), 'what': 'raised ' + type(e).__name__})
+    rep.case(('nontext', 'all'), nontrivial=False)
+    rep.count('nontext_keys', len(NONTEXT))
+    err = nontext_error(le)
+    if err:
+        rep.violations.append({'key': 'nontext', 'kind': 'nontext', 'text': err[0], 'what': err[1]})
+
+
+# bytes that would decode to a fine key are not text either
+NONTEXT = (None, 0, 3.5, True, [], (), {}, ('mit',), ['mit'], b'', b'mit', b'  gpl   2.0  ', 'caf\u00e9-1.0'.encode('utf-8'), b'gpl-2.0+',
+           bytearray(b'mit'), memoryview(b'mit'), object())
+
+
+def nontext_error(le):
+    from core import UserRecord
+    makers = (('LicenseSymbol(%r)', lambda k: le.LicenseSymbol(k)), ('LicenseSymbol(%r, is_exception=True)', lambda k: le.LicenseSymbol(k, is_exception=True)),
+              ('LicenseSymbolLike(<object with key %r>)', lambda k: le.LicenseSymbolLike(UserRecord(k))))
+    for k in NONTEXT:
+        for fmt, mk in makers:
+            try:
+                r = mk(k)
+                return (repr(k), 'non-text key accepted: %s returned %r' % (fmt % (k,), r))
+            except le.ExpressionError:
+                pass
+            except Exception as e:   # noqa
+                return (repr(k), '%s raised %s' % (fmt % (k,), type(e).__name__))
+    return None
 
 
 def replay(payload):
     le = imp()
     from core import build_expr
+    if payload.get('kind') == 'nontext':
+        err = nontext_error(le)
+        return (err is None, err[1] if err else 'non-text keys are refused')
     if payload.get('kind') == 'key':
         err = oracle_key(payload['text'], le)
         return (err is None, err or 'key rule holds')
